@@ -672,7 +672,8 @@ class EGen:
             if k <= 4:
                 return ("B", r.choice(["add", "sub", "mul", "floordiv", "mod", "add", "sub"]), g("int"), g("int"))
             if k == 5:
-                return ("B", "pow", g("int"), ("C", r.choice([0, 1, 2, 3])))
+                # constant or computed exponent (a folded negative base with a run-time exponent is a class of its own)
+                return ("B", "pow", g("int"), ("C", r.choice([0, 1, 2, 3])) if r.random() < 0.5 else self.atom("int") if r.random() < 0.7 else g("int"))
             if k == 6:
                 return ("U", r.choice(["neg", "pos"]), g("int"))
             if k == 7:
